@@ -218,34 +218,9 @@ Definition C04_oracle_ok (k : Rel_case) : bool :=
   end.
 
 (* ----------------------------------------------------------- known-finding classes *)
-Definition acts (k : Rel_case) : list action := map fst (k_trace k).
-Definition has_frag (k : Rel_case) : bool :=
-  existsb (fun a => match a with AWrite _ len _ => fsz (k_cfg k) <? len | _ => false end) (acts k).
-Definition keys_of (k : Rel_case) : list Z :=
-  flat_map (fun a => match a with AWrite key _ _ => [key] | _ => [] end) (acts k).
-Definition multi_key_keep_last (k : Rel_case) : bool :=
-  (0 <? depth (k_cfg k)) &&
-  match keys_of k with [] => false | k0 :: t => existsb (fun x => negb (x =? k0)) t end.
-Definition reader_gone (k : Rel_case) : bool :=
-  existsb (fun a => match a with ADelReader | ADelPart => true | _ => false end) (acts k).
-Fixpoint be_volatile_late_from (seen_write : bool) (l : list (action * out)) : bool :=
-  match l with
-  | [] => false
-  | (AWrite _ _ _, OCode 0) :: t => be_volatile_late_from true t
-  | (AMatch false false, _) :: t => seen_write
-  | _ :: t => be_volatile_late_from seen_write t
-  end.
-
-(* C01: 1 = KEEP_LAST history with several instances, i.e. interior holes that are announced by GAPs
-   (C01-gap-skip) *)
-Definition C01_known (k : Rel_case) : N :=
-  if multi_key_keep_last k then 1%N else 0%N.
+(* none: the three defects found with these checks (GAP skip, stale waiter, best-effort VOLATILE history) are
+   repaired in the code (91937ff, 66b3297, 0faf897) and the model follows the repaired code *)
+Definition C01_known (k : Rel_case) : N := 0%N.
 Definition C02_known (k : Rel_case) : N := 0%N.
-(* C03: 1 = the reader or its participant was deleted (C03-stale-proxy); 2 = GAP skip (C03-gap-skip-ack) *)
-Definition C03_known (k : Rel_case) : N :=
-  if reader_gone k then 1%N else if multi_key_keep_last k then 2%N else 0%N.
-(* C04: 1 = best-effort VOLATILE late joiner (C04-volatile-besteffort-history); 2 = GAP skip
-   (C04-gap-skip-history) *)
-Definition C04_known (k : Rel_case) : N :=
-  if be_volatile_late_from false (k_trace k) then 1%N
-  else if multi_key_keep_last k then 2%N else 0%N.
+Definition C03_known (k : Rel_case) : N := 0%N.
+Definition C04_known (k : Rel_case) : N := 0%N.
